@@ -2,6 +2,7 @@ SPECIFICATION Spec
 CONSTANT Configs <- ConfigsSmall
 CONSTANT RandVals <- RandValsSmall
 CONSTANT K = 2
+CONSTANT SkipSame = "no"
 CONSTANT defaultInitValue = 0
 INVARIANT InvP1
 INVARIANT InvP2
